@@ -12,12 +12,14 @@ namespace NGF.PanicSites
 /-- The mirrored sites. -/
 inductive Site
   | nsLookup          -- route_common.go isRouteNamespaceAllowedByListener: "route namespace %q not found in map"
+                      -- (REMOVED by commit d734bd5; fires only in the pre-fix mirror `nsAllowedPre`)
   | nilFrom           -- same function: `*listener.Source.AllowedRoutes.Namespaces.From` with From == nil (implicit)
   | noListenerForHost -- configuration.go hostPathRules.buildServers: "no listener found for hostname"
   | pathType          -- convert.go convertPathType: "unsupported path type"
   | nilPath           -- configuration.go upsertRoute: `*m.Path.Type` with Path or Type nil (implicit)
   | resolvePre        -- resolver.go Resolve: "expected the following fields to be non-empty"
   | plusField         -- graph.go setPlusSecretContent: "NGINX Plus Secret did not have expected field"
+                      -- (REMOVED by commit 02715d5; fires only in the pre-fix mirror `setPlusSecretContentPre`)
   | mgmtToken         -- main_config.go generateMgmtFiles: "nginx plus token not set in expected map"
   | storeGVK          -- store.go assertSupportedGVK: "unsupported GVK"
   | storeFind         -- store.go mustFindStoreForObj: "object store for … not found"
@@ -25,7 +27,7 @@ inductive Site
                       -- prepare_requests.go PrepareRouteRequests: unknown route type
   | filterType        -- common_filter.go validateFilter: "unexpected filter type"
   | btpCondIndex      -- backend_refs.go findBackendTLSPolicyForService: `beTLSPolicy.Conditions[0]` on an empty
-                      -- slice (implicit index panic)
+                      -- slice (implicit index panic; GUARDED since commit 72dccd7; fires only in `btpMessagePre`)
   deriving DecidableEq, Repr, BEq
 
 instance {ε α : Type} [DecidableEq ε] [DecidableEq α] : DecidableEq (Except ε α) := fun a b =>
@@ -89,8 +91,8 @@ structure BindView where
   routes     : List Route       -- L7 routes, then L4 routes, of the graph
   deriving Repr
 
-/-- `isRouteNamespaceAllowedByListener`; `m` stands for `AllowedRouteLabelSelector.Matches(ns.Labels)`. -/
-def nsAllowed (m : String → String → Bool) (l : Listener) (routeNS gwNS : String)
+/-- `isRouteNamespaceAllowedByListener` BEFORE commit d734bd5: panics when the Namespace is unknown. -/
+def nsAllowedPre (m : String → String → Bool) (l : Listener) (routeNS gwNS : String)
     (namespaces : List String) : Except Site Bool :=
   match l.from_ with
   | .absent => .ok true
@@ -120,8 +122,25 @@ def validateParentRef (ref : ParentRef) (gw : Gateway) : Option (List Listener) 
   else if !gw.valid then none
   else some att
 
-/-- the loop of `tryToAttachL7RouteToListeners` / `tryToAttachL4RouteToListeners` over the attachable
-listeners: the namespace check is the first thing `bind` / `bindToListenerL4` does. -/
+/-! ### the code as it is since commit d734bd5: a route whose Namespace object is not known (yet) is
+simply not allowed by a Selector listener (`return false`); the `…Pre` definitions below mirror the
+code BEFORE that commit and are kept as regression detectors. -/
+
+/-- `isRouteNamespaceAllowedByListener` (current code); `m` stands for
+`AllowedRouteLabelSelector.Matches(ns.Labels)`. -/
+def nsAllowed (m : String → String → Bool) (l : Listener) (routeNS gwNS : String)
+    (namespaces : List String) : Except Site Bool :=
+  match l.from_ with
+  | .absent => .ok true
+  | .nilPtr => .error .nilFrom
+  | .all => .ok true
+  | .same => .ok (routeNS == gwNS)
+  | .selector =>
+    if !l.hasSelector then .ok false
+    else if namespaces.contains routeNS then .ok (m l.name routeNS)
+    else .ok false
+  | .other => .ok true
+
 def tryAttach (m : String → String → Bool) (routeNS gwNS : String) (namespaces : List String) :
     List Listener → Except Site Unit
   | [] => .ok ()
@@ -130,7 +149,6 @@ def tryAttach (m : String → String → Bool) (routeNS gwNS : String) (namespac
     | .error s => .error s
     | .ok _ => tryAttach m routeNS gwNS namespaces ls
 
-/-- the `for i := range route.ParentRefs` loop of `bindL7RouteToListeners` / `bindL4RouteToListeners`. -/
 def bindRefs (m : String → String → Bool) (gw : Gateway) (namespaces : List String) (routeNS : String) :
     List ParentRef → Except Site Unit
   | [] => .ok ()
@@ -142,23 +160,60 @@ def bindRefs (m : String → String → Bool) (gw : Gateway) (namespaces : List 
       | .error s => .error s
       | .ok _ => bindRefs m gw namespaces routeNS rest
 
-def bindRoute (m : String → String → Bool) (gw : Gateway) (namespaces : List String) (r : Route) :
-    Except Site Unit :=
-  if !r.attachable then .ok () else bindRefs m gw namespaces r.ns r.refs
-
 def bindRoutes (m : String → String → Bool) (gw : Gateway) (namespaces : List String) :
     List Route → Except Site Unit
   | [] => .ok ()
   | r :: rs =>
-    match bindRoute m gw namespaces r with
+    match (if !r.attachable then .ok () else bindRefs m gw namespaces r.ns r.refs) with
     | .error s => .error s
     | .ok _ => bindRoutes m gw namespaces rs
 
-/-- `bindRoutesToListeners`. -/
 def bindAll (m : String → String → Bool) (v : BindView) : Except Site Unit :=
   match v.gw with
   | none => .ok ()
   | some gw => bindRoutes m gw v.namespaces v.routes
+
+/-! ### pre-fix mirrors of the binding (code before commit d734bd5) -/
+
+/-- the loop of `tryToAttachL7RouteToListeners` / `tryToAttachL4RouteToListeners` over the attachable
+listeners: the namespace check is the first thing `bind` / `bindToListenerL4` does. -/
+def tryAttachPre (m : String → String → Bool) (routeNS gwNS : String) (namespaces : List String) :
+    List Listener → Except Site Unit
+  | [] => .ok ()
+  | l :: ls =>
+    match nsAllowedPre m l routeNS gwNS namespaces with
+    | .error s => .error s
+    | .ok _ => tryAttachPre m routeNS gwNS namespaces ls
+
+/-- the `for i := range route.ParentRefs` loop of `bindL7RouteToListeners` / `bindL4RouteToListeners`. -/
+def bindRefsPre (m : String → String → Bool) (gw : Gateway) (namespaces : List String) (routeNS : String) :
+    List ParentRef → Except Site Unit
+  | [] => .ok ()
+  | ref :: rest =>
+    match validateParentRef ref gw with
+    | none => bindRefsPre m gw namespaces routeNS rest
+    | some att =>
+      match tryAttachPre m routeNS gw.ns namespaces att with
+      | .error s => .error s
+      | .ok _ => bindRefsPre m gw namespaces routeNS rest
+
+def bindRoutePre (m : String → String → Bool) (gw : Gateway) (namespaces : List String) (r : Route) :
+    Except Site Unit :=
+  if !r.attachable then .ok () else bindRefsPre m gw namespaces r.ns r.refs
+
+def bindRoutesPre (m : String → String → Bool) (gw : Gateway) (namespaces : List String) :
+    List Route → Except Site Unit
+  | [] => .ok ()
+  | r :: rs =>
+    match bindRoutePre m gw namespaces r with
+    | .error s => .error s
+    | .ok _ => bindRoutesPre m gw namespaces rs
+
+/-- `bindRoutesToListeners`. -/
+def bindAllPre (m : String → String → Bool) (v : BindView) : Except Site Unit :=
+  match v.gw with
+  | none => .ok ()
+  | some gw => bindRoutesPre m gw v.namespaces v.routes
 
 /-! ## 2. Host path rules (dataplane/configuration.go `hostPathRules`)
 
@@ -329,10 +384,16 @@ structure PlusFile where
   type          : Nat         -- SecretFileType (0 = PlusReportJWTToken)
   deriving Repr
 
+/-- `setPlusSecretContent` (current code, commit 02715d5): a missing field is skipped (`continue`). -/
 def setPlusSecretContent : List PlusFile → Except Site Unit
   | [] => .ok ()
+  | f :: fs => if f.secretPresent && !f.fieldPresent then setPlusSecretContent fs else setPlusSecretContent fs
+
+/-- `setPlusSecretContent` BEFORE commit 02715d5: panics on a missing field. -/
+def setPlusSecretContentPre : List PlusFile → Except Site Unit
+  | [] => .ok ()
   | f :: fs =>
-    if f.secretPresent && !f.fieldPresent then .error .plusField else setPlusSecretContent fs
+    if f.secretPresent && !f.fieldPresent then .error .plusField else setPlusSecretContentPre fs
 
 /-- `buildAuxiliarySecrets`: the keys of the resulting map. -/
 def auxSecretKeys (fs : List PlusFile) : List Nat := fs.map (·.type)
@@ -356,16 +417,24 @@ structure Btp where
 invalid WITHOUT adding a condition. -/
 def validateBtp (b : Btp) : Bool × Nat := (!b.ancestorsFull && b.specErrs == 0, b.specErrs)
 
-/-- `findBackendTLSPolicyForService` on a policy some backendRef resolves to:
+/-- `findBackendTLSPolicyForService` on a policy some backendRef resolves to (current code, commit
+72dccd7): the message of the first condition if there is one, a fixed text otherwise. -/
+def btpMessage (valid : Bool) (nconds : Nat) : Except Site String :=
+  if !valid then .ok (if nconds > 0 then "conditions[0].message" else "its ancestor status list is full")
+  else .ok ""
+
+def btpLookup (b : Btp) : Except Site String := btpMessage (validateBtp b).1 (validateBtp b).2
+
+/-- the same BEFORE commit 72dccd7:
 `if !beTLSPolicy.Valid { err = fmt.Errorf(…, beTLSPolicy.Conditions[0].Message) }`. -/
-def btpMessage (valid : Bool) (nconds : Nat) : Except Site Unit :=
+def btpMessagePre (valid : Bool) (nconds : Nat) : Except Site Unit :=
   if !valid && nconds == 0 then .error .btpCondIndex else .ok ()
 
-def btpLookup (b : Btp) : Except Site Unit := btpMessage (validateBtp b).1 (validateBtp b).2
+def btpLookupPre (b : Btp) : Except Site Unit := btpMessagePre (validateBtp b).1 (validateBtp b).2
 
-/-- the policies of a step on which the lookup WOULD panic if a backendRef reaches them -/
-def btpMaySites (ps : List (Bool × Nat)) : List Site :=
-  if ps.any (fun p => match btpMessage p.1 p.2 with | .error _ => true | .ok _ => false) then [.btpCondIndex] else []
+/-- the policies of a step on which the PRE-FIX lookup would panic if a backendRef reaches them -/
+def btpMaySitesPre (ps : List (Bool × Nat)) : List Site :=
+  if ps.any (fun p => match btpMessagePre p.1 p.2 with | .error _ => true | .ok _ => false) then [.btpCondIndex] else []
 
 /-! ## 6. The object store (state/store.go `newChangeTrackingUpdater`, `Upsert`, `Delete`) -/
 
@@ -390,7 +459,9 @@ def newUpdater : List KindCfg → Updater
       stores := if c.hasStore then c.kind :: u.stores else u.stores }
 
 /-- `Upsert` / `Delete` as far as panics are concerned: `assertSupportedGVK`, then
-`mustFindStoreForObj` only when `persists`. -/
+`mustFindStoreForObj` only when `persists` (`upsert`: get + upsert; `delete`, since commit ecaa5d2:
+`old := get`, return if nil, `delete`, and the predicate judges `old`; every kind of the table,
+EndpointSlice included, now has a store). -/
 def Updater.capture (u : Updater) (kind : String) : Except Site Unit :=
   if !u.supported.contains kind then .error .storeGVK
   else if u.persisted.contains kind then
@@ -477,6 +548,12 @@ def stepSites (u : Updater) (m : String → String → Bool) (v : StepView) : Li
       ++ err (convertAll v.pathTypes) ++ err (buildAllServers v.hostOps) ++ err (resolveAll v.backends)
       ++ err (generateMgmtFiles v.plus v.plusFiles)
 
+/-- what the PRE-FIX mirrors (code before commits d734bd5 / 02715d5) would do in this step: used to
+recognise a regression of one of those repairs by its old input class. -/
+def preSites (m : String → String → Bool) (v : StepView) : List Site :=
+  let err : Except Site Unit → List Site := fun e => match e with | .error s => [s] | .ok _ => []
+  if !v.changed then [] else err (bindAllPre m v.bind) ++ err (setPlusSecretContentPre v.plusFiles)
+
 /-! ## 9. Histories: the store of Namespace objects and the graph inputs change event by event;
 `apply` is the end of a batch (`Process()` → `BuildGraph` → `bindRoutesToListeners`). -/
 
@@ -516,54 +593,6 @@ def Ctl.run (bind : BindView → Except Site Unit) (c : Ctl) : List Ev → Ctl
 def withApplies : List Ev → List Ev
   | [] => []
   | e :: es => e :: .apply :: withApplies es
-
-/-! ### candidate repair of the namespace lookup (NOT what the code does today): a route whose
-Namespace object is not known yet is simply not allowed by a Selector listener. -/
-
-def nsAllowedRepaired (m : String → String → Bool) (l : Listener) (routeNS gwNS : String)
-    (namespaces : List String) : Except Site Bool :=
-  match l.from_ with
-  | .absent => .ok true
-  | .nilPtr => .error .nilFrom
-  | .all => .ok true
-  | .same => .ok (routeNS == gwNS)
-  | .selector =>
-    if !l.hasSelector then .ok false
-    else if namespaces.contains routeNS then .ok (m l.name routeNS)
-    else .ok false
-  | .other => .ok true
-
-def tryAttachR (m : String → String → Bool) (routeNS gwNS : String) (namespaces : List String) :
-    List Listener → Except Site Unit
-  | [] => .ok ()
-  | l :: ls =>
-    match nsAllowedRepaired m l routeNS gwNS namespaces with
-    | .error s => .error s
-    | .ok _ => tryAttachR m routeNS gwNS namespaces ls
-
-def bindRefsR (m : String → String → Bool) (gw : Gateway) (namespaces : List String) (routeNS : String) :
-    List ParentRef → Except Site Unit
-  | [] => .ok ()
-  | ref :: rest =>
-    match validateParentRef ref gw with
-    | none => bindRefsR m gw namespaces routeNS rest
-    | some att =>
-      match tryAttachR m routeNS gw.ns namespaces att with
-      | .error s => .error s
-      | .ok _ => bindRefsR m gw namespaces routeNS rest
-
-def bindRoutesR (m : String → String → Bool) (gw : Gateway) (namespaces : List String) :
-    List Route → Except Site Unit
-  | [] => .ok ()
-  | r :: rs =>
-    match (if !r.attachable then .ok () else bindRefsR m gw namespaces r.ns r.refs) with
-    | .error s => .error s
-    | .ok _ => bindRoutesR m gw namespaces rs
-
-def bindAllRepaired (m : String → String → Bool) (v : BindView) : Except Site Unit :=
-  match v.gw with
-  | none => .ok ()
-  | some gw => bindRoutesR m gw v.namespaces v.routes
 
 /-! ## 10. Section-name references (route_common.go `buildSectionNameRefs`) — not a panic site: the
 error makes the route invalid WITHOUT a condition, i.e. the inconsistency is not reported. -/
